@@ -2,10 +2,13 @@ package main
 
 import (
 	"bytes"
+	"crypto"
+	"crypto/rsa"
 	"crypto/sha256"
 	"crypto/x509"
 	"encoding/asn1"
 	"fmt"
+	"io"
 	"strconv"
 	"strings"
 	"time"
@@ -45,15 +48,77 @@ func askVerify(c *Ctx, blob []byte, cert *x509.Certificate, detached []byte) (st
 	return r[len("model="):mi], r[mi+len(" spec="):]
 }
 
+// ---- caller-supplied signer kinds ----
+// SignPKCS7 takes a crypto.Signer: the property quantifies over whatever object holds the RSA key, not only
+// over *rsa.PrivateKey. Each kind below signs with the same key and honours the crypto.Signer contract
+// (Sign receives the digest named by opts), so the output must verify whichever kind is handed in.
+
+// signOnly: an opaque key holder (token, agent, KMS client) that offers Sign and Public and nothing else
+type signOnly struct{ k *rsa.PrivateKey }
+
+func (s signOnly) Public() crypto.PublicKey { return &s.k.PublicKey }
+func (s signOnly) Sign(r io.Reader, digest []byte, opts crypto.SignerOpts) ([]byte, error) {
+	return s.k.Sign(r, digest, opts)
+}
+
+// messageSignerKind: additionally offers SignMessage with MESSAGE semantics (the shape of crypto.MessageSigner):
+// msg is the data to be signed, the signer hashes it itself with opts.HashFunc() before signing
+type messageSignerKind struct{ signOnly }
+
+func (s messageSignerKind) SignMessage(r io.Reader, msg []byte, opts crypto.SignerOpts) ([]byte, error) {
+	h := opts.HashFunc().New()
+	h.Write(msg)
+	return s.k.Sign(r, h.Sum(nil), opts)
+}
+
+// publicByValue: Public() hands out the key by value (rsa.PublicKey) instead of by pointer
+type publicByValue struct{ signOnly }
+
+func (s publicByValue) Public() crypto.PublicKey { return s.k.PublicKey }
+
+// pssCapable: a key holder whose Sign looks at the options it is given: PSS options produce a PSS signature,
+// everything else PKCS#1 v1.5 (what *rsa.PrivateKey does; here behind an interface value, with a pointer receiver)
+type pssCapable struct{ k *rsa.PrivateKey }
+
+func (s *pssCapable) Public() crypto.PublicKey { return &s.k.PublicKey }
+func (s *pssCapable) Sign(r io.Reader, digest []byte, opts crypto.SignerOpts) ([]byte, error) {
+	if o, ok := opts.(*rsa.PSSOptions); ok {
+		return rsa.SignPSS(r, s.k, o.Hash, digest, o)
+	}
+	return rsa.SignPKCS1v15(r, s.k, opts.HashFunc(), digest)
+}
+
+var signerKinds = []string{"rsa-private-key", "sign-only", "message-signer", "public-by-value", "options-aware"}
+
+func signerOfKind(kind string, k *rsa.PrivateKey) crypto.Signer {
+	switch kind {
+	case "sign-only":
+		return signOnly{k}
+	case "message-signer":
+		return messageSignerKind{signOnly{k}}
+	case "public-by-value":
+		return publicByValue{signOnly{k}}
+	case "options-aware":
+		return &pssCapable{k}
+	}
+	return k
+}
+
 func c05Eval(c *Ctx, cs Case) {
 	oid := parseOID(cs.S("oid"))
 	content := unhx(cs.S("content"))
 	bits := int(cs.I("bits"))
-	key := poolKey(c, bits, int(cs.I("key")))
+	rsaKey := poolKey(c, bits, int(cs.I("key")))
 	shapes := certShapes(c)
 	sh := shapes[int(cs.I("shape"))%len(shapes)]
-	cert := makeRSACert(key, sh)
+	cert := makeRSACert(rsaKey, sh)
+	kind := cs.S("signer")
+	if kind == "" {
+		kind = signerKinds[0]
+	}
+	key := signerOfKind(kind, rsaKey) // what the caller hands to SignPKCS7
 	cls := fmt.Sprintf("sign/%d/%s/len%s", bits, sh.desc, sizeClass(len(content)))
+	c.Class("signer-kind/" + kind)
 	c.Count(cs.Key(), true, cls)
 	c.Sample(cs)
 	fail := func(what, goObs, spec string) {
@@ -268,7 +333,8 @@ func c05Gen(c *Ctx) {
 				n++
 				continue
 			}
-			c05Eval(c, Case{"op": "sign", "oid": o, "content": hx(contentFor(c, o, l)), "bits": int64(bitsets[n%len(bitsets)]), "key": int64(n % 2), "shape": int64(n % len(shapes))})
+			c05Eval(c, Case{"op": "sign", "oid": o, "content": hx(contentFor(c, o, l)), "bits": int64(bitsets[n%len(bitsets)]), "key": int64(n % 2), "shape": int64(n % len(shapes)),
+				"signer": signerKinds[(n/2)%len(signerKinds)]})
 			n++
 			if c.NFailures() >= 6 {
 				return
@@ -279,13 +345,13 @@ func c05Gen(c *Ctx) {
 		l := []int{0, 1, c.Rng.Intn(300), c.Rng.Intn(70000)}[c.Rng.Intn(4)]
 		o := oids[c.Rng.Intn(len(oids))]
 		c05Eval(c, Case{"op": "sign", "oid": o, "content": hx(contentFor(c, o, l)), "bits": int64(bitsets[c.Rng.Intn(len(bitsets))]),
-			"key": int64(c.Rng.Intn(2)), "shape": int64(c.Rng.Intn(len(shapes)))})
+			"key": int64(c.Rng.Intn(2)), "shape": int64(c.Rng.Intn(len(shapes))), "signer": signerKinds[c.Rng.Intn(len(signerKinds))]})
 	}
 }
 
 func init() {
 	register("C05", &PropDef{
-		Rule:   "SignPKCS7 over content types {data, SpcIndirectDataContent, 2.999.1234567.1, 0.39.16383.16384, signedData, and two enterprise OIDs of 14 and 38 content octets (signed attributes longer than 127 bytes)} x content lengths {0,1,2,127,128,255,256,1000,65535,65536,70000,random} x RSA 2048 (thorough: 3072, 4096) x 11 certificate shapes (9 self-signed and 2 CA-issued with issuer different from subject; short/long/multi-RDN/UTF-8 issuers; serials 1,127,128,255,256, high-bit, leading-zero source bytes, 20 bytes, 2^159). Each blob is checked for strict DER (minimal lengths, SET OF order) by an independent walker, verified by the library, by an encoding/asn1+crypto/rsa verifier, by go.mozilla.org/pkcs7 and by the Lean Spec, with the right and with different content, and reproduced byte for byte by the Lean builder model. Every case is non-trivial; distinct = distinct (oid, content, key, shape).",
+		Rule:   "SignPKCS7 handed five kinds of caller-supplied crypto.Signer holding the same RSA key (*rsa.PrivateKey; a wrapper offering only Sign and Public; one that additionally offers SignMessage(rand, msg, opts) with message semantics, i.e. hashes msg itself like crypto.MessageSigner / token and KMS wrappers; one whose Public() returns the key by value instead of by pointer; a pointer-receiver holder whose Sign chooses PSS or PKCS#1 v1.5 from the options it is given), rotating over content types {data, SpcIndirectDataContent, 2.999.1234567.1, 0.39.16383.16384, signedData, and two enterprise OIDs of 14 and 38 content octets (signed attributes longer than 127 bytes)} x content lengths {0,1,2,127,128,255,256,1000,65535,65536,70000,random} x RSA 2048 (thorough: 3072, 4096) x 11 certificate shapes (9 self-signed and 2 CA-issued with issuer different from subject; short/long/multi-RDN/UTF-8 issuers; serials 1,127,128,255,256, high-bit, leading-zero source bytes, 20 bytes, 2^159). Each blob is checked for strict DER (minimal lengths, SET OF order) by an independent walker, verified by the library, by an encoding/asn1+crypto/rsa verifier, by go.mozilla.org/pkcs7 and by the Lean Spec, with the right and with different content, and reproduced byte for byte by the Lean builder model. Every case is non-trivial; distinct = distinct (oid, content, key, shape, signer kind).",
 		Assume: []string{"RSA PKCS#1 v1.5 signing is deterministic, so the builder model is given the signature and the signing time read back from the blob", "x509.ParseCertificates is opaque (its verdict is handed to the model)"},
 		Eval:   c05Eval, Gen: c05Gen,
 	})
